@@ -627,14 +627,14 @@ theorem step_update {q : Rat} {V : Mat Rat} {tgt : List Nat} {s s' : State} {c :
 
 /-- the loop invariant of tie-and-transfer: multipliers positive and every cell between its signposts under the
     current multipliers -/
-def Inv (q : Rat) (V : Mat Rat) (m n : Nat) (s : State) : Prop :=
+def LoopInv (q : Rat) (V : Mat Rat) (m n : Nat) (s : State) : Prop :=
   (∀ i < m, 0 < s.dc.getD i 0) ∧ (∀ j < n, 0 < s.pc.getD j 0) ∧
   ∀ i < m, ∀ j < n, isRounding q (quot V s i j) (mget s.x i j)
 
 theorem update_inv {q : Rat} {V : Mat Rat} {tgt : List Nat} {s s' : State} {c : Rat}
     (hq1 : q < 1) (hV : ∀ i j, 0 ≤ vget V i j)
-    (hinv : Inv q V V.length (nCols V) s) (h : step q V tgt s = .ok (.update s' c)) :
-    Inv q V V.length (nCols V) s' := by
+    (hinv : LoopInv q V V.length (nCols V) s) (h : step q V tgt s = .ok (.update s' c)) :
+    LoopInv q V V.length (nCols V) s' := by
   obtain ⟨hx, hc0, hc1, labD, labP, hadj, hdc, hpc⟩ := step_update h
   obtain ⟨hcnn, halpha, hbeta⟩ := adjCoef_bounds hq1 hadj
   have hcpos : 0 < c := lt_of_le_of_ne hcnn (Ne.symm hc0)
